@@ -16,7 +16,7 @@ const P: &str = "C14";
 
 pub fn generate(r: &mut Prng, seed: u64, run: u64) -> Scenario {
     let mut cfg = GenCfg::draw(r);
-    cfg.names = cfg.names.min(2);
+    cfg.names = if r.chance(1, 8) { 3 } else { cfg.names.min(2) };
     cfg.cap_paths = true;
     cfg.n_terms = cfg.n_terms.min(60);
     if r.chance(1, 15) {
@@ -25,6 +25,13 @@ pub fn generate(r: &mut Prng, seed: u64, run: u64) -> Scenario {
         cfg.shape = *r.pick(&[0u8, 0, 2, 3]);
     }
     cfg.max_recs = [r.urange(0, 8), r.urange(0, 6), r.urange(0, 6)];
+    if run % 400 == 200 {
+        // a leaf several hundred parent links below the root
+        cfg.n_terms = r.urange(258, 330);
+        cfg.shape = 0;
+        cfg.extra_roots = false;
+        cfg.redundant_edges = r.chance(1, 2);
+    }
     let mut facts = gen_facts(r, &cfg);
     // annotations on phenotype terms, modifier descendants and modifier roots
     if let Some(d) = defaults(&facts) {
